@@ -27,7 +27,12 @@
 (***************************************************************************)
 EXTENDS SplitSem
 
-Res(cfg, e) == [j \in 1..cfg.m |-> [i |-> j, p |-> e]]
+\* m = 9: a data-dependent number of results (last value of the content modulo 3: 0, 1 or 2 results).  Results are
+\* evaluated lazily by the real elements: each one carries the content at the moment it is yielded, which is the
+\* content of the block because the adapter may reset the element only after the last result
+NRes(cfg, e) == IF cfg.m # 9 THEN cfg.m ELSE IF e = <<>> THEN 0 ELSE e[Len(e)] % 3
+Res(cfg, e) == [j \in 1..NRes(cfg, e) |-> [i |-> j, p |-> e]]
+MaxRes(cfg) == IF cfg.m # 9 THEN cfg.m ELSE 2
 PerValue(cfg, blk) == IF cfg.pv THEN [j \in 1..Len(blk) |-> [i |-> 0, p |-> <<blk[j]>>]] ELSE <<>>
 AfterYield(cfg, e) == IF cfg.reset THEN <<>> ELSE e
 \* the values of a block that the element's run reads
@@ -111,6 +116,14 @@ SplitBlocks(cfg, s, blocks) ==
   IF blocks = <<>> THEN <<>>
   ELSE LET r == RequestStep(cfg, FillMany(cfg, s, Head(blocks)))
        IN r.res \o SplitBlocks(cfg, r.s, Tail(blocks))
+\* the same, block by block: what each request() of Split returns (Split yields it before it reads the next buffer)
+RECURSIVE SplitPer(_, _, _)
+SplitPer(cfg, s, blocks) ==
+  IF blocks = <<>> THEN <<>>
+  ELSE LET r == RequestStep(cfg, FillMany(cfg, s, Head(blocks)))
+       IN <<r.res>> \o SplitPer(cfg, r.s, Tail(blocks))
+SplitPerBlock(cfg, xs, bs) ==
+  IF xs = <<>> THEN <<RequestStep(cfg, S0).res>> ELSE SplitPer(cfg, S0, BlocksOf(xs, bs))
 SplitAround(cfg, xs, bs) ==
   IF xs = <<>> THEN RequestStep(cfg, S0).res ELSE SplitBlocks(cfg, S0, BlocksOf(xs, bs))
 
